@@ -283,26 +283,28 @@ func (s *sender) roc(ctr int) int {
 // ---- scenario -----------------------------------------------------------------------------
 
 type endpoint struct { // one receiving endpoint
-	name     string
-	proto    string // udp | tcp | mcast | plain-tcp (names the transport in violation keys)
-	rd       *rig.Reader
-	pc       *rig.PlayClient // library client (nil: server-side ingest or plain-profile peer)
-	plain    *plainPeer      // raw reader with the plain profile inside TLS (mixed scenarios)
-	decErr   atomic.Int64
-	decFirst atomic.Value
-	decMu    sync.Mutex
-	decKinds map[string]int // message (digits stripped) -> count
-	appMu    sync.Mutex
-	apps     map[uint32][]byte // delivered APP packets: id (SSRC field) -> data
-	appDup   int
-	rocAt    int // packets of flow 0 written when this endpoint joined
-	playing  atomic.Bool
-	closing  atomic.Bool
-	stalled  atomic.Int32 // pacing gave up waiting for this endpoint that many times
-	qfull    atomic.Int64 // write-queue-full signals attributed to this endpoint (signalled losses)
-	keepLog  bool         // tamper scenarios: keep (pt, seq, counter) of every delivery
-	logMu    sync.Mutex
-	log      []tdel
+	name      string
+	proto     string // udp | tcp | mcast | plain-tcp (names the transport in violation keys)
+	rd        *rig.Reader
+	pc        *rig.PlayClient // library client (nil: server-side ingest or plain-profile peer)
+	plain     *plainPeer      // raw reader with the plain profile inside TLS (mixed scenarios)
+	decErr    atomic.Int64
+	decFirst  atomic.Value
+	decMu     sync.Mutex
+	decKinds  map[string]int // message (digits stripped) -> count
+	appMu     sync.Mutex
+	apps      map[uint32][]byte // delivered APP packets: id (SSRC field) -> data
+	appDup    int
+	rocAt     int         // packets of flow 0 written when this endpoint joined
+	appAt     uint32      // RTCP APP packets written when this endpoint's PLAY / RECORD had completed
+	undecided atomic.Bool // its session ended by a wall-clock watchdog on a stalled machine (inconclusive)
+	playing   atomic.Bool
+	closing   atomic.Bool
+	stalled   atomic.Int32 // pacing gave up waiting for this endpoint that many times
+	qfull     atomic.Int64 // write-queue-full signals attributed to this endpoint (signalled losses)
+	keepLog   bool         // tamper scenarios: keep (pt, seq, counter) of every delivery
+	logMu     sync.Mutex
+	log       []tdel
 }
 
 type tdel struct {
@@ -498,17 +500,19 @@ func (sr *scenRun) signalled(e *endpoint, err error) error {
 // sessionEnded: a session that ends by itself under an untampered load. When the reason is one
 // of the library's wall-clock watchdogs and the scheduler canary saw the machine stall, the
 // case is inconclusive; otherwise it is reported.
-func (sr *scenRun) sessionEnded(proto, who, reason string) {
+func (sr *scenRun) sessionEnded(proto, who, reason string) (inconclusive bool) {
 	sr.clMu.Lock()
 	closes := strings.Join(sr.closes, "; ")
 	sr.clMu.Unlock()
 	late := canary.WorstSince(sr.started)
 	if (strings.Contains(reason+closes, "timeout") || strings.Contains(reason+closes, "timed out")) && late > 250*time.Millisecond {
 		run.Inconclusive("session ended by a wall-clock watchdog while the machine was stalled")
-		return
+		run.Count("stalled-machine:session-ended:"+proto+":"+vlibTrunc(who[:strings.IndexByte(who+" ", ' ')]+": "+reason), 1)
+		return true
 	}
 	sr.fail("interop/"+proto+"/"+sr.sc.Kind+"/session-ended-by-error",
 		fmt.Sprintf("%s ended during the load: %s (server: %s; worst scheduler lateness %v)", who, reason, closes, late), nil)
+	return false
 }
 
 func vlibTrunc(s string) string {
@@ -561,7 +565,13 @@ func (sr *scenRun) clientMutate(ep *endpoint, tamperIn bool, extra func(*gortspl
 		if ep != nil {
 			c.OnDecodeError = ep.onDecodeError
 		}
-		c.VerifSetTimers(nil, 200*time.Millisecond, 200*time.Millisecond, 0)
+		// the client's wall-clock watchdogs are not what this property is about: far away. (Their
+		// first check - 1 s after PLAY on multicast, InitialUDPReadTimeout on UDP with an explicit
+		// protocol - compares against a last-packet time of 0 and ends a reader that has not
+		// received anything YET with "UDP timeout", whatever ReadTimeout says: a reader that waits
+		// for the others to be set up before the load starts would die on a loaded machine.)
+		c.InitialUDPReadTimeout = 10 * time.Minute
+		c.VerifSetTimers(nil, 200*time.Millisecond, 200*time.Millisecond, 10*time.Minute)
 		if extra != nil {
 			extra(c)
 		}
@@ -906,6 +916,7 @@ func runScenario(sc scenario) {
 				sr.fail("interop/"+proto+"/profile-not-savp", "an rtsps session negotiated a non-secure media profile", nil)
 			}
 		}
+		ep.appAt = sr.appCtr.Load()
 		ep.playing.Store(true)
 		sr.emu.Lock()
 		sr.eps = append(sr.eps, ep)
@@ -1088,7 +1099,7 @@ func runScenario(sc scenario) {
 	var drainEps []*endpoint
 	for _, e := range sr.activeReaders() {
 		if err := e.died(); err != nil {
-			sr.sessionEnded(e.proto, "reader "+e.name, err.Error())
+			e.undecided.Store(sr.sessionEnded(e.proto, "reader "+e.name, err.Error()))
 			continue
 		}
 		drainEps = append(drainEps, e)
